@@ -639,7 +639,7 @@ fn run(ctx: &Ctx) {
 	// kill mode: real worker threads, SIGKILL at a generated moment (any instant, not only the
 	// library's file-operation sites)
 	let n = scaled(ctx, 1_600, 40_000);
-	ctx.run_prop_shrink(
+	let _ = ctx.run_prop_shrink(
 		"kill",
 		n,
 		30,
